@@ -70,6 +70,9 @@ class Model:
         if isinstance(it_t, tuple) and len(it_t) == 3 and it_t[0] == "getitem" and it_t[2] == ("slice", (None, None, -1)):
             self.log("reversed-walk", None, seq=it_t[1])
             return ("elem", it_t[1])
+        if isinstance(it_t, tuple) and len(it_t) == 2 and it_t[0] == "reversed":
+            self.log("reversed-walk", None, seq=it_t[1])
+            return ("elem", it_t[1])
         return ("elem", it_t)
 
     def unpack_item(self, v: Any, base: T.Term, i: int, n: int) -> Any:
